@@ -84,7 +84,13 @@ func VerifC19_RawAllKinds() {
 	if vThorough() {
 		nSecond = 4
 	}
-	switch vInt("second", 0, nSecond) {
+	second := vInt("second", 0, nSecond)
+	if second == 1 && !(mode == 0 || (um == 2 && !ro)) {
+		// thorough tier: a raw second token in Normal mode (all unknown modes, both
+		// orders) and in pass-through mode of the other two; elsewhere the fixed kinds
+		vAssume(false)
+	}
+	switch second {
 	case 0:
 	case 1:
 		t1 := vString("t1value")
